@@ -135,6 +135,16 @@ def processLine (st : St) (line : String) : IO St := do
     let obsS := obsS.trimAscii.toString
     match toks opS with
     | kind :: fh :: argToks =>
+      if kind = "S" then
+        -- allocation clause at a call-site-shaped caller: `S <shape> <via> <bytes> | <allocs>`
+        let mut st := { st with stats := st.stats.bump "ops" |>.bump "op_S" }
+        if obsS ≠ "0" then
+          IO.println s!"MISMATCH case={st.caseId} op={opS} model=0 impl={obsS}"
+          IO.println s!"PROPFAIL case={st.caseId} clause=no-alloc feature=callsite:{fh} op={opS} impl={obsS}"
+          st := { st with stats := st.stats.bump "mismatch" |>.bump "propfail" }
+        if argToks.getLast? = some "0" then
+          IO.println s!"MISMATCH case={st.caseId} call-site shape wrote nothing: {opS}"
+        return st
       let some args := parseArgs argToks
         | IO.println s!"MISMATCH case={st.caseId} unparsable arguments: {opS}"; return st
       let fmt := hexBytes fh
